@@ -55,11 +55,6 @@ func genRLWE(t *rapid.T) RLWECase {
 		if rapid.Bool().Draw(t, "neg") {
 			c.Offset = -c.Offset
 		}
-		if c.Op == "InnerFunction" && !s.NTT {
-			// InnerFunction with n > 1 on a coefficient-domain ciphertext returns a wrong IsNTT flag (finding of C09,
-			// rlwe.InnerFunction/Trace metadata handling): only the n = 1 path is exercised there.
-			c.N = 1
-		}
 		terms, depth = c.N, bitsLen(c.N)+3
 	default:
 		c.K = genK(t, order, "k")
@@ -289,13 +284,22 @@ func runRLWE(c RLWECase, rec *h.Rec) error {
 		}
 	case "Trace":
 		detail = fmt.Sprintf("Trace(logN=%d) inPlace=%v", c.LogTr, c.InPlace)
+		var galEls []uint64
 		if c.Spec.CI && c.LogTr == 0 {
-			// GaloisElementsForTrace documents (by panicking) that the full trace needs an element that does not exist
-			// in the conjugate-invariant ring: outside the advertised domain.
-			rec.Class("trace=ci-full(skipped)")
-			return nil
+			// Before the Trace fix GaloisElementsForTrace refused (by panicking) the full trace in the conjugate-invariant
+			// ring; a version that advertises a list must also make it sufficient and correct.
+			refused := func() (r bool) {
+				defer func() { r = recover() != nil }()
+				galEls = rlwe.GaloisElementsForTrace(p, c.LogTr)
+				return
+			}()
+			if refused {
+				rec.Class("trace=ci-full(refused)")
+				return nil
+			}
+		} else {
+			galEls = rlwe.GaloisElementsForTrace(p, c.LogTr)
 		}
-		galEls := rlwe.GaloisElementsForTrace(p, c.LogTr)
 		keys = keysFor(kgen, sk, galEls, c.Bpw2)
 		eval := rlwe.NewEvaluator(p, keys)
 		// documented: a monomial X^k is kept unchanged when k is divisible by N/n and vanishes otherwise. The kept set is
